@@ -31,7 +31,9 @@ def swapcase_component(u, which):
 
 
 CARRIERS = [("youtube.com", "/redirect?q=lemonde.fr/article"), ("amp-a-com.cdn.ampproject.org", "/v/s/a.com/x?id=1"), ("bc.marfeel.com", "/a.com/x"),
-            ("example.com", "/out?url=http%3A%2F%2Flemonde.fr%2Fa")]
+            ("example.com", "/out?url=http%3A%2F%2Flemonde.fr%2Fa"),
+            # a SHORT carrier and a target with several raw blanks: whatever the target is re-written to, the carrier's length plays no part
+            ("t.co", "/?u=http://a.com/a b c d e f g h i j k"), ("t.co", "/?u=http%3A%2F%2Fa.com%2Fa%20b%20c%20d%20e")]
 
 
 def bases():
